@@ -9,8 +9,8 @@ if [ -n "$(git status --porcelain)" ]; then echo "/repo not clean"; exit 2; fi
 if ! git apply --check "$PATCH" 2>/dev/null; then
   if git apply --3way --check "$PATCH" 2>/dev/null; then MODE=--3way; else echo "PATCH DOES NOT APPLY: $PATCH"; exit 3; fi
 fi
-git apply ${MODE:-} "$PATCH" || exit 3
-trap 'cd /repo && git checkout -q -- . && git clean -fdq' EXIT
+trap 'cd /repo && git reset -q --hard HEAD && git clean -fdq' EXIT
+git apply ${MODE:-} "$PATCH" || { echo "PATCH DOES NOT APPLY CLEANLY: $PATCH"; exit 3; }
 SCR=$(mktemp -d /tmp/seedrun.XXXX)
 for P in "$@"; do
   start=$(date +%s)
